@@ -28,6 +28,19 @@ NOTES = {
  "C16-r3/": "first missed (the oracle's equilibrium table was built with the code's own feq_vector, the function the change broke, and CTi was 1); C16/C11/C12 now use an independent transcription of the equilibrium (harness/physics.py) and constants in general position",
  "C18-r3/": "first run did not finish (the cached constants described the default 256x512x32x128 grid and the set-up comparison tried to build it); the comparison now sizes the grid by what the parser returns and reports the difference",
  "C19-r3/": "first missed (2-D kernels were only called with equal degrees and three of the four derivative combinations); C19 now calls them with mixed degrees and all four combinations - which also exposed the pythran defect fixed in 2b90041",
+ "C01-r4/": "would have been missed (only connected layout sets were offered); strengthened from the agent's description before the first evaluation: disconnected sets are now offered to the constructor and must be refused on every rank, or are judged like any accepted set",
+ "C03-r4/": "would have been missed (one two-directional group per grouping); strengthened before the first evaluation: groupings with two two-directional groups, on the same grid or with exchanged directions",
+ "C07-r4/": "would have been missed (basis[i] objects were never built); strengthened before the first evaluation: every basis[i] is compared with the exact basis function, periodic images included",
+ "C08-r4/": "first missed (the 2-D interpolant was judged through its coefficients only); C08 now evaluates it point by point and on the tensor grid at its interpolation points, mixed degrees included",
+ "C09-r4/": "would have been missed (cell widths 1 and 1/4 only, absolute tolerances); strengthened before the first evaluation: cell widths 2^-30 and 1024 with tolerances relative to the width, interpolation points taken as the code rounds them",
+ "C10-r4/": "would have been missed (dyadic z step: displacement / dz exact); strengthened before the first evaluation: whole-cell displacements on z steps 0.1, 0.3, 1/7",
+ "C11-r4/": "first missed in the quick tier (periodic shifts of more than one domain width were only in the thorough tier); now in both",
+ "C13-r4/": "would have been missed (constant rotational transform); strengthened before the first evaluation: r-dependent sign-changing transform - which exposed the defect fixed in 148392e (the seed's patch was rebased onto that fix)",
+ "C14-r4/": "would have been missed (refusal tested for mode 0 only); strengthened before the first evaluation: Neumann/Neumann refusal for every mode index with D = 0 and D != 0",
+ "C16-r4/": "would have been missed (density storage pre-filled with a real sentinel); strengthened before the first evaluation: complex sentinel, both parts must be overwritten",
+ "C17-r4/": "would have been missed (min/max only on fresh grids); strengthened before the first evaluation: one grid object through setLayout / save / restore / free with the request order reversed after the restore",
+ "C18-r4/": "would have been missed (folder names without dots); strengthened before the first evaluation: folders split_2.5, unsplit.v2_7, lt<i>_1.5",
+ "C20-r4/": "first missed (only the search functions were called); C20 now also asks the set-up functions, with and without a plot-only rank, which grid they chose",
 }
 rows = []
 for d in sorted(glob.glob("/verif/seeded/*/meta.json")):
